@@ -1654,9 +1654,10 @@ class TheCounter(Command):
 
             return getattr(self.ownerDocument.context.counters[name], format)
 
-        format = re.sub(r'\$(\w+)', r'${\1}', self.format)
         if self.format is None:
             format = '${%s.arabic}' % self.nodeName[3:]
+        else:
+            format = re.sub(r'\$(\w+)', r'${\1}', self.format)
 
         t = re.sub(r'\$\{\s*(\w+)(?:\.(\w+))?\s*\}', counterValue, format)
 
